@@ -25,17 +25,21 @@ def trim (cut : List UInt8) (s : Bytes) : Bytes :=
 
 /-- split at the last byte that belongs to `cut`:  `strings.LastIndexAny` followed by
     `s[:i]`, `s[i:]` (the separator stays at the head of the second part). -/
-def splitLastAny (cut : List UInt8) (s : Bytes) : Option (Bytes × Bytes) :=
-  let r := s.reverse
-  match r.span (fun b => !cut.contains b) with
-  | (_, []) => none
-  | (tailRev, sep :: headRev) => some (headRev.reverse, sep :: tailRev.reverse)
+def splitLastAny (cut : List UInt8) : Bytes → Option (Bytes × Bytes)
+  | [] => none
+  | c :: r =>
+    match splitLastAny cut r with
+    | some (pre, post) => some (c :: pre, post)
+    | none => if cut.contains c then some ([], c :: r) else none
 
 /-- `strings.Index(s, sep)` for a one-byte separator, followed by `s[:i]`, `s[i+1:]`. -/
-def splitFirst (sep : UInt8) (s : Bytes) : Option (Bytes × Bytes) :=
-  match s.span (fun b => b != sep) with
-  | (_, []) => none
-  | (pre, _ :: post) => some (pre, post)
+def splitFirst (sep : UInt8) : Bytes → Option (Bytes × Bytes)
+  | [] => none
+  | c :: r =>
+    if c == sep then some ([], r)
+    else match splitFirst sep r with
+      | some (pre, post) => some (c :: pre, post)
+      | none => none
 
 /-- `strings.Split(s, sep)` for a one-byte separator (always at least one part). -/
 def splitOn (sep : UInt8) : Bytes → List Bytes
